@@ -66,7 +66,9 @@ CLAIMED = {
         engine="core",
         text="Lean 4: gene_knock_out (after Gene.knock_out the gene is non-functional, a reaction has both bounds zero exactly when it is one of the "
              "gene's reactions whose rule is false with the non-functional genes absent, all others keep their bounds, reaction.functional is the "
-             "rule value), reaction_knock_out, monotonicity of further knock-outs, knock-outs are recorded/undone. Tied to the code by the Core "
+             "rule value), knock_out_set (closed form for any list of genes knocked out one after the other) and knock_out_order_independent (any two "
+             "orders of the same genes give the same gene states and bounds), reaction_knock_out, monotonicity of further knock-outs, knock-outs "
+             "are recorded/undone. Tied to the code by the Core "
              "correspondence and an independent truth-table oracle over bounds, flags and GLPK column bounds.",
         note=CORE_NOTE, technique="Lean 4 proof over the Core model + truth-table oracle",
         design="DESIGN.md section 5, C07"),
